@@ -199,7 +199,7 @@ def candidates(world):
         yield "frequency -1", c
     pol = w["policy"]
     for k in list(pol):
-        if k in ("name", "runtime"):
+        if k in ("name", "runtime", "plan_ahead", "discretization", "goal", "branch_policy"):
             continue
         if pol[k] not in (False, 0, 0.0, None):
             c = copy.deepcopy(w)
